@@ -66,6 +66,7 @@ macro_rules! ep_int {
         let e = $reg.add(&$name, $nin,
             Box::new(move |inp: &[$crate::sym::Sym]| -> $crate::explore::Out<$crate::sym::Sym> {
                 #[allow(dead_code)] type T = $S;
+                $crate::sym::set_eager(true);
                 let $a: Vec<T> = inp.iter().map(|s| <$S>::from(*s)).collect();
                 let r: Vec<T> = $body;
                 $crate::explore::Out::of(r.iter().map(|x| x.0).collect()) }),
